@@ -22,3 +22,8 @@ open MdVerif.DocImg
 #print axioms MdVerif.DocMix.C01_mixed_covers_linkImg
 #print axioms MdVerif.DocMix.C01_links_images_mixed
 #print axioms MdVerif.DocMix.C01_mixed_spelling
+#print axioms MdVerif.DocMixB.C01i_br_loop
+#print axioms MdVerif.DocMixB.C01i_br_block
+#print axioms MdVerif.DocMixB.C01_mixedBr_covers_mixed
+#print axioms MdVerif.DocMixB.C01_links_images_breaks
+#print axioms MdVerif.DocMixB.C01_mixedBr_spelling
